@@ -374,6 +374,112 @@ def template_programs():
 
 
 # =============================================================================================
+# values captured from a variable stay what they were when the variable is assigned to later
+# (scalars are copied), and the other way round
+# =============================================================================================
+def capture_programs():
+    progs = []
+    n = 0
+    scalars = {
+        "int": (I(1), I(9), "+=", I(1), "int"),
+        "str": (S("a"), S("z"), "+=", S("b"), "str"),
+        "bool": (B(True), B(False), None, None, "bool"),
+        "float": (F(3, 1), F(5, 1), "+=", F(1, 1), "float"),
+    }
+    for ty, (v1, v2, cop, cv, tyname) in scalars.items():
+        caps = {
+            "opt": (lambda: Un("?", V("x")), lambda: V("c"), None),
+            "list": (lambda: List(V("x")), lambda: V("c"), lambda: Asg(Idx(V("c"), I(0)), v2)),
+            "obj": (lambda: Obj(f=V("x")), lambda: Mem(V("c"), "f"), lambda: Asg(Mem(V("c"), "f"), v2)),
+            "let": (lambda: V("x"), lambda: V("c"), lambda: Asg(V("c"), v2)),
+            "idfn": (lambda: Call("id", V("x")), lambda: V("c"), lambda: Asg(V("c"), v2)),
+            "block": (lambda: Block([], V("x")), lambda: V("c"), lambda: Asg(V("c"), v2)),
+            "if": (lambda: If(V("yes"), Block([], V("x")), Block([], V("x"))), lambda: V("c"), lambda: Asg(V("c"), v2)),
+            "match": (lambda: Match(I(1), [([I(1)], V("x"))], V("x")), lambda: V("c"), lambda: Asg(V("c"), v2)),
+            "list2": (lambda: List(V("x"), V("x")), lambda: V("c"), lambda: Asg(Idx(V("c"), I(1)), v2)),
+            "nested": (lambda: List(List(V("x"))), lambda: V("c"), lambda: Asg(Idx(Idx(V("c"), I(0)), I(0)), v2)),
+        }
+        if ty == "int":
+            caps["range"] = (lambda: Range(V("x"), I(7)), lambda: V("c"), None)
+        for cname, (cap, read, mutc) in caps.items():
+            muts = [("assign", lambda: Asg(V("x"), v2))]
+            if cop:
+                muts.append(("compound", lambda: Asg(V("x"), cv, cop)))
+            for mname, mut in muts:
+                n += 1
+                fns = {"id": Fn(["a"], Block([], V("a")), ret=tyname, pts=[tyname]),
+                       "main": Fn([], Block([Let("yes", B(True)), Let("x", v1), Let("c", cap()), Expr(mut()),
+                                             Print(V("x"), read()), Expr(mut()), Print(V("x"), read())]))}
+                progs.append(Program("cap%d" % n, fns, feats={"family": "capture", "capture": cname, "ty": ty, "mut": mname}))
+            if mutc:
+                n += 1
+                fns = {"id": Fn(["a"], Block([], V("a")), ret=tyname, pts=[tyname]),
+                       "main": Fn([], Block([Let("yes", B(True)), Let("x", v1), Let("c", cap()), Expr(mutc()),
+                                             Print(V("x"), read())]))}
+                progs.append(Program("cap%d" % n, fns, feats={"family": "capture", "capture": cname, "ty": ty, "mut": "captured"}))
+        # the loop form: remember the previous value
+        n += 1
+        if cop:
+            body = Block([Expr(Asg(V("prev"), Un("?", V("x")))), Expr(Asg(V("x"), cv, cop)), Expr(Asg(V("k"), I(1), "+="))])
+            progs.append(Program("cap%d" % n, {"main": Fn([], Block([Let("x", v1), Let("prev", Un("?", v1)), Let("k", I(0)),
+                                                                      While(Bin("<", V("k"), I(3)), body), Print(V("x"), V("prev"))]))},
+                                 feats={"family": "capture", "capture": "opt-loop", "ty": ty, "mut": "compound"}))
+    # lists are references: a captured list sees later pushes, but not a re-assignment of the variable
+    for cname, cap, read in [("let", lambda: V("x"), lambda: V("c")), ("opt", lambda: Un("?", V("x")), lambda: V("c")),
+                             ("list", lambda: List(V("x")), lambda: V("c")), ("obj", lambda: Obj(f=V("x")), lambda: Mem(V("c"), "f")),
+                             ("idfn", lambda: Call("idl", V("x")), lambda: V("c"))]:
+        n += 1
+        fns = {"idl": Fn(["a"], Block([], V("a")), ret="[int]", pts=["[int]"]),
+               "main": Fn([], Block([Let("x", List(I(1))), Let("c", cap()), Expr(MCall(V("x"), "push", I(2))),
+                                     Print(V("x"), read()), Expr(Asg(V("x"), List(I(7)))), Print(V("x"), read()),
+                                     Expr(MCall(V("x"), "push", I(8))), Print(V("x"), read())]))}
+        progs.append(Program("cap%d" % n, fns, feats={"family": "capture", "capture": cname, "ty": "list", "mut": "push+assign"}))
+    return progs
+
+
+# =============================================================================================
+# function literals in the middle of other control flow (no captured locals)
+# =============================================================================================
+def lambda_programs():
+    progs = []
+
+    def add(name, stmts, **feats):
+        progs.append(Program("lam_" + name, {"main": Fn([], Block(stmts))}, globs=[("yes", B(True)), ("no", B(False))],
+                             feats=dict(feats, family="lambda", template=name)))
+
+    def lam_if():
+        return FnLit(["a"], Block([], If(Bin(">", V("a"), I(0)), Block([], V("a")), Block([], I(0)))), ret="int")
+
+    def lam_loop():
+        return FnLit(["a"], Block([Let("s", I(0)), For("q", Range(I(0), V("a")), Block([Expr(Asg(V("s"), V("q"), "+="))]))], V("s")), ret="int")
+
+    def lam_plain():
+        return FnLit(["a"], Block([], Bin("*", V("a"), I(2))), ret="int")
+
+    for lname, lam in (("if", lam_if), ("loop", lam_loop), ("plain", lam_plain)):
+        add("if_after_" + lname, [Expr(If(V("yes"), Block([Print(S("first"))]))), Expr(If(V("no"), Block([Print(S("never"))]))),
+                                  Let("f", lam()), Expr(If(V("yes"), Block([Print(S("mid"), Call("f", I(3)))]))),
+                                  Expr(If(V("yes"), Block([Print(S("third"))]), Block([Print(S("else"))]))), Print(S("end"))])
+        add("loop_around_" + lname, [Let("t", I(0)), For("i", Range(I(0), I(3)), Block([
+            Expr(If(Bin("==", V("i"), I(1)), Block([Print(S("one"))]))), Let("f", lam()),
+            For("j", Range(I(0), I(2)), Block([Expr(Asg(V("t"), Call("f", Bin("+", V("i"), V("j"))), "+="))])),
+            Print(S("outer"), V("i"), V("t"))])), Print(S("done"), V("t"))])
+        add("value_after_" + lname, [Let("a", If(V("yes"), Block([], I(1)), Block([], I(2)))), Let("f", lam()),
+                                     Let("b", If(V("no"), Block([], I(3)), Block([], If(V("yes"), Block([], I(4)), Block([], I(5)))))),
+                                     Let("c", Match(Call("f", I(1)), [([I(2)], S("two"))], S("other"))),
+                                     Print(V("a"), V("b"), V("c"), Call("f", I(2)))])
+        add("try_after_" + lname, [Expr(Try(Block([Expr(Call("throw", S("a")))]), "e", Block([Print(S("c1"), Mem(V("e"), "message"))]))),
+                                   Let("f", lam()),
+                                   Expr(Try(Block([Print(Call("f", I(2))), Expr(Call("throw", S("b")))]), "e",
+                                            Block([Print(S("c2"), Mem(V("e"), "message"))]))),
+                                   Let("w", I(0)), While(Bin("<", V("w"), I(2)), Block([Expr(Asg(V("w"), I(1), "+=")), Print(S("w"), V("w"))])),
+                                   Print(Bin("&&", V("yes"), Bin("||", V("no"), V("yes"))))])
+    add("lambda_arg", [Print(CallV(FnLit(["a", "b"], Block([], Bin("-", V("a"), V("b"))), ret="int"), I(7), I(2)))])
+    add("lambda_in_list_call", [Let("f", FnLit([], Block([Print(S("called"))]))), Expr(Call("f")), Expr(Call("f"))])
+    return progs
+
+
+# =============================================================================================
 # random well-typed programs (seeded)
 # =============================================================================================
 class RandGen:
@@ -504,6 +610,14 @@ class RandGen:
             self.vars.pop()
             # the Let has to precede the loop: emit both as a block-less pair via a wrapper block statement
             return Expr(Block([Let(k, I(0)), While(Bin("<", V(k), I(r.randint(1, 3))), Block(body))]))
+        if c < 0.905:
+            f = self.fresh("f")
+            saved = self.vars
+            self.vars = [[("a", "int")]]           # a function literal sees its parameters only
+            body = Block([], self.expr("int", 3))
+            self.vars = saved
+            lam = FnLit(["a"], body, ret="int")
+            return Expr(Block([Let(f, lam), Print(S("lam"), Call(f, self.expr("int", 1)))]))
         if c < 0.94:
             e = self.fresh("e")
             self.vars.append([])
